@@ -1,6 +1,6 @@
-"""C03 — container family (writer origin)."""
+"""C03 — advertised coverage (files from the real writers and from the independent encoders)."""
 from . import containers
 
 
 def run(tier, seed, replay):
-    return containers.run_family("C03", tier, seed, replay)
+    return containers.run_family("C03", tier, seed, replay, also_indep=True)
